@@ -432,7 +432,9 @@ fn key_variants(base: usize, variant: usize) -> Node {
         13 => match variant % 3 {
             0 => Node::map(true, vec![(s("a"), s("1"))]).tagged("!t"),
             1 => Node::map(true, vec![(s("a"), s("1"))]).tagged("!u"),
-            _ => Node::map(true, vec![(s("a"), Node::scalar("1", Style::Double))]).tagged("!t"),
+            // (the inner key quoted: the same node for the reader, and the same value for an
+            // untyped target - a quoted `"1"` would be a string next to the integer 1)
+            _ => Node::map(true, vec![(Node::scalar("a", Style::Double), s("1"))]).tagged("!t"),
         },
         7 => match variant % 3 {
             0 => Node::seq(true, vec![s("a"), s("b")]).tagged("!t"),
@@ -544,7 +546,18 @@ impl Property for C04 {
                 let mut tagged_map_key = false;
                 c.doc.visit(&mut |n| {
                     if let Kind::Map { entries, .. } = &n.kind {
-                        tagged_map_key |= entries.iter().any(|(k, _)| k.tag.is_some() && matches!(k.kind, Kind::Map { .. }));
+                        // (narrow: two mapping keys of one mapping that are equal apart from their
+                        // own tags - a tagged mapping key without such a partner reads correctly)
+                        for (i, (k1, _)) in entries.iter().enumerate() {
+                            for (k2, _) in &entries[i + 1..] {
+                                if matches!(k1.kind, Kind::Map { .. }) && matches!(k2.kind, Kind::Map { .. }) && k1.tag != k2.tag {
+                                    let (mut a, mut b) = (k1.clone(), k2.clone());
+                                    a.tag = None;
+                                    b.tag = None;
+                                    tagged_map_key |= gdoc::same_key(&a, &b);
+                                }
+                            }
+                        }
                     }
                 });
                 if tagged_map_key { vec!["tagged_mapping_key"] } else { vec![] }
